@@ -32,6 +32,11 @@ theorem hstep_base (s s' : HState) (e : HEvent) (h : hstep s e = some s') :
     split at h
     · simp only [Option.some.injEq] at h; subst h; exact .inl ⟨rfl, rfl⟩
     · simp at h
+  | append p bs =>
+    simp only [hstep] at h
+    split at h
+    · simp only [Option.some.injEq] at h; subst h; exact .inl ⟨rfl, rfl⟩
+    · simp at h
   | refTo p =>
     simp only [hstep] at h
     cases hs : step s.ps (.ref p) with
@@ -110,6 +115,14 @@ theorem heap_stable_step (s s' : HState) (e : HEvent) (hi : Inv s.ps) (p : Nat) 
       have : p ≠ q := by intro e; subst e; rw [hw] at hq; exact Bool.false_ne_true hq
       simp [upd, this, hw]
     · simp at h
+  | append q bs =>
+    simp only [hstep] at h
+    split at h
+    · rename_i hq
+      simp only [Option.some.injEq] at h; subst h
+      have : p ≠ q := by intro e; subst e; rw [hw] at hq; exact Bool.false_ne_true hq
+      simp [upd, this, hw]
+    · simp at h
   | refTo q =>
     simp only [hstep] at h
     cases hs : step s.ps (.ref q) with
@@ -160,4 +173,101 @@ theorem heap_stable_aux (es : List HEvent) (s : HState) (hi : Inv s.ps) (p : Nat
         hk (k + 1) (by simp; omega) sk (by simp [hrun, hs, hrun']))
       exact ⟨by rw [this.1, h1.1], this.2⟩
 
+/-- one step, for a held page that MAY still have its writer: unless the step is an overwrite of `p`, its bytes only grow -/
+theorem heap_grow_step (s s' : HState) (e : HEvent) (hi : Inv s.ps) (p : Nat) (hp : p ∈ s.ps.held)
+    (hno : noOverwrite p [e] = true) (h : hstep s e = some s') : s.content p <+: s'.content p := by
+  have hnot : p ∉ s.ps.pool := by
+    intro hm
+    have h0 := hi.poolFree p hm
+    rw [hi.counts p] at h0
+    exact (List.count_eq_zero.mp h0) hp
+  have hlt : p < s.ps.fresh := hi.bound p (.inr hp)
+  cases e with
+  | allocPage =>
+    simp only [hstep] at h
+    cases hs : step s.ps .allocPage with
+    | none => simp [hs] at h
+    | some ps' =>
+      simp only [hs, Option.some.injEq] at h; subst h
+      have : p ≠ s.ps.fresh := by omega
+      simp [upd, this]
+  | reusePage i =>
+    simp only [hstep] at h
+    cases hg : s.ps.pool[i]? with
+    | none => simp [hg] at h
+    | some q =>
+      simp only [hg] at h
+      cases hs : step s.ps (.reusePage i) with
+      | none => simp [hs] at h
+      | some ps' =>
+        simp only [hs, Option.some.injEq] at h; subst h
+        have : p ≠ q := fun e => hnot (e ▸ mem_of_getElem? hg)
+        simp [upd, this]
+  | write q bs =>
+    simp only [noOverwrite, Bool.and_true, decide_eq_true_eq] at hno
+    simp only [hstep] at h
+    split at h
+    · simp only [Option.some.injEq] at h; subst h
+      have : p ≠ q := fun e => hno e.symm
+      simp [upd, this]
+    · simp at h
+  | append q bs =>
+    simp only [hstep] at h
+    split at h
+    · simp only [Option.some.injEq] at h; subst h
+      by_cases hpq : p = q
+      · subst hpq; simp [upd]
+      · simp [upd, hpq]
+    · simp at h
+  | refTo q =>
+    simp only [hstep] at h
+    cases hs : step s.ps (.ref q) with
+    | none => simp [hs] at h
+    | some ps' => simp only [hs, Option.some.injEq] at h; subst h; exact List.prefix_refl _
+  | unrefRef q =>
+    simp only [hstep] at h
+    by_cases hc : (if s.writer q then 2 else 1) ≤ s.ps.held.count q
+    · rw [if_pos hc] at h
+      cases hs : step s.ps (.unref q) with
+      | none => simp [hs] at h
+      | some ps' => simp only [hs, Option.some.injEq] at h; subst h; exact List.prefix_refl _
+    · rw [if_neg hc] at h; simp at h
+  | unrefBuf q =>
+    simp only [hstep] at h
+    split at h
+    · cases hs : step s.ps (.unref q) with
+      | none => simp [hs] at h
+      | some ps' => simp only [hs, Option.some.injEq] at h; subst h; exact List.prefix_refl _
+    · simp at h
+  | poolDrop i =>
+    simp only [hstep] at h
+    cases hs : step s.ps (.poolDrop i) with
+    | none => simp [hs] at h
+    | some ps' => simp only [hs, Option.some.injEq] at h; subst h; exact List.prefix_refl _
+
+theorem noOverwrite_cons (p : Nat) (e : HEvent) (es : List HEvent) (h : noOverwrite p (e :: es) = true) :
+    noOverwrite p [e] = true ∧ noOverwrite p es = true := by
+  cases e <;> simp_all [noOverwrite]
+
+theorem heap_grow_aux (es : List HEvent) (s : HState) (hi : Inv s.ps) (p : Nat) (hp : p ∈ s.ps.held)
+    (hno : noOverwrite p es = true) :
+    ∀ s', hrun s es = some s' → (∀ k, k ≤ es.length → ∀ sk, hrun s (es.take k) = some sk → p ∈ sk.ps.held) →
+      s.content p <+: s'.content p := by
+  induction es generalizing s with
+  | nil => intro s' hr _; simp [hrun] at hr; subst hr; exact List.prefix_refl _
+  | cons e es ih =>
+    intro s' hr hk
+    simp only [hrun] at hr
+    cases hs : hstep s e with
+    | none => simp [hs] at hr
+    | some s1 =>
+      simp only [hs] at hr
+      obtain ⟨h1e, h1r⟩ := noOverwrite_cons p e es hno
+      have h1 := heap_grow_step s s1 e hi p hp h1e hs
+      have hp1 : p ∈ s1.ps.held := hk 1 (by simp) s1 (by simp [hrun, hs])
+      have := ih s1 (hinv_step s s1 e hi hs) hp1 h1r s' hr (fun k hkl sk hrun' =>
+        hk (k + 1) (by simp; omega) sk (by simp [hrun, hs, hrun']))
+      exact List.IsPrefix.trans h1 this
+
 end KV.Model.Pages
+
